@@ -206,11 +206,9 @@ def check_trim(c, repo):
     c.check(okall, f, mdef, 'kept length is the window when one is in force, else the look-back (never the smaller of the two)',
             witness='; '.join(cases), kind='alg', tag='trim-maintain')
     # NEGZERO: -M must be non-zero: dominated by a truthiness guard on the same expression
-    dom_ok = False
-    for t in g.nodes:
-        if t.kind == 'test' and norm(t.ast) == norm(mdef):
-            if n in guard_region(g, t, 'true'):
-                dom_ok = True
+    # (the test may be on the defining expression or on the local that holds it: the same value)
+    cs_ = conditions(g, n)
+    dom_ok = (norm(mdef), True) in cs_ or (M, True) in cs_
     c.check(dom_ok, f, arg, 'the negative slice bound is provably non-zero (guarded by the truthiness of the same expression): '
             'window[-0:] would keep everything', witness='no dominating truthiness test of %s' % norm(mdef), kind='path', tag='trim-negzero')
     # look-back is the searcher's longest_string
